@@ -35,6 +35,18 @@ RULE = ("case = (mode, template built from segments [data | {{ name }} | for-loo
         "| self.v() in set / printed / from a child block] whose block body is one value or several "
         "pieces: the rule is applied to the block's output to get the value of super()/self.x() and "
         "again to the template's output. "
+        "Empty parts: ONE value node (mostly values whose text does not read back as an equal "
+        "literal: custom objects, objects whose str() looks like a literal, Decimal, date, "
+        "frozenset, nan/inf, range, function, generator, bytes, Markup, an undefined variable, "
+        "containers of those) with 1-4 output nodes that render as NOTHING around it - 26 "
+        "expressions, 16 constant at compile time ('', '' ~ '', ''|safe, []|join, "
+        "none|default('', true), ' '|trim, ...) and 10 depending on data ('' variable, Markup(''), "
+        "empty list|join, missing|default(''), ...) - before / after / on both sides, in the same "
+        "output statement or outside the body that prints the value, and / or statements without "
+        "any output (comment, set, empty if / for / with / block, include of an empty template), "
+        "at the top level and inside if / for / with / block bodies and an if inside a for, "
+        "optionally with text around: next to an empty output node the value is not the only node "
+        "(text rule), with only silent statements around it is (identity). "
         "Histories: one literal text holding >=1 list/dict/set (nested up to 3 levels, also inside a "
         "tuple) rendered 5-8 times through 2-3 templates [text cut into data/variable pieces | one "
         "string node | for-loop join | {{ super() }} of a block producing it | set a = self.w() of a "
@@ -60,6 +72,12 @@ ASSUMPTIONS = [
     "templates never end in a newline and contain no \\r (newline normalisation is C12's subject)",
     "the value of {{ super() }} / {{ self.name() }} in a native environment is the documented native "
     "result of the referenced block's output (single non-string value itself, else literal-or-text)",
+    "an output node whose value is the empty string is a node like any other ('If the result is a single "
+    "node, its value is returned. Otherwise, the nodes are concatenated as strings'): `{{ x }}{{ \"\" }}` has "
+    "two nodes; statements that output nothing (comments, set, if/for/with/block without output, an "
+    "included empty template) are not nodes. What a macro call or a {% set %}{% endset %} block with empty "
+    "output evaluates to in a native environment is not documented and not generated; a single undefined "
+    "node is not checked",
     "a str-subclass / Markup single node is a string: the text rule applies to its text",
     "computed objects are compared by type and value (type-strict at every nesting level), objects "
     "handed in through render() by identity",
@@ -96,7 +114,16 @@ FLOORS = {
                            "history_mode:async.gather": 450, "history_route:cut": 500,
                            "history_route:string-node": 190, "history_route:loop-join": 80,
                            "history_route:block-super": 190, "history_route:block-self-set": 190,
-                           "history_within_render_checks": 12}},
+                           "history_within_render_checks": 12,
+                           # empty parts: count-bounded (100 cases per shard x 4 modes)
+                           "empty_part_cases": 2000, "empty_part:const": 1300,
+                           "empty_part:runtime": 1000,
+                           "empty_next_to_single_nonstring_value": 1300,
+                           "empty_next_to_value_whose_text_is_not_its_literal": 1100,
+                           "empty_only_silent_statements_around_single_value": 200,
+                           "empty_scope:top": 700, "empty_scope:if": 230, "empty_scope:loop": 230,
+                           "empty_scope:if-in-loop": 230, "empty_scope:with": 230,
+                           "empty_scope:block": 230}},
     "thorough": {"evaluations": 350000, "distinct": 65000,
                  # time-boxed main loop: at load ~9x (load average 145 on 16 cores) a run gave
                  # identity_checks 78.9k / literal_results 86.6k / text_results 103.8k /
@@ -131,7 +158,17 @@ FLOORS = {
                               "history_route:string-node": 2200, "history_route:loop-join": 1000,
                               "history_route:block-super": 2200,
                               "history_route:block-self-set": 2200,
-                              "history_within_render_checks": 12}},
+                              "history_within_render_checks": 12,
+                              # empty parts: 5000 cases per shard, time-boxed to 10% of the budget
+                              # (25.6k cases at load average ~70 on 16 cores)
+                              "empty_part_cases": 6500, "empty_part:const": 4300,
+                              "empty_part:runtime": 3200,
+                              "empty_next_to_single_nonstring_value": 4300,
+                              "empty_next_to_value_whose_text_is_not_its_literal": 3700,
+                              "empty_only_silent_statements_around_single_value": 650,
+                              "empty_scope:top": 2400, "empty_scope:if": 800,
+                              "empty_scope:loop": 800, "empty_scope:if-in-loop": 800,
+                              "empty_scope:with": 800, "empty_scope:block": 800}},
 }
 
 MODES = ["sync.render", "async.render_async", "async.render", "sandbox.render"]
@@ -316,7 +353,46 @@ def make_value(recipe):
         return (i for i in range(recipe[1]))
     if k == "func":
         return len
+    if k == "date":
+        import datetime
+
+        return datetime.date(*recipe[1])
+    if k == "fset":
+        return frozenset(recipe[1])
+    if k == "undef":
+        return UNDEF
     raise AssertionError(recipe)
+
+
+class _Undef:
+    """Stands for a variable that is NOT handed to render(): the node's value is an undefined,
+    whose text is the empty string (docs/templates.rst 'Variables')."""
+
+    def __str__(self):
+        return ""
+
+    def __repr__(self):
+        return "<not passed to render>"
+
+
+UNDEF = _Undef()
+
+# ---- expressions that render as NOTHING: an output node whose value is the empty string.
+# (source, 'const' = the value is known when the template is compiled | 'runtime' = it depends
+# on the data handed to render)
+EMPTY_EXPRS = [
+    ('""', "const"), ("''", "const"), ('"" ~ ""', "const"), ("''|safe", "const"),
+    ("[]|join", "const"), ("[]|join(', ')", "const"), ("none|default('', true)", "const"),
+    ("''|default('x')", "const"), ("'' if true else 'x'", "const"), ("''|string", "const"),
+    ("' '|trim", "const"), ("''|e", "const"), ("'abc'[:0]", "const"), ("'' * 3", "const"),
+    ("''|upper", "const"), ("('', 1)[0]", "const"),
+    ("emp", "runtime"), ("emp ~ ''", "runtime"), ("emp|safe", "runtime"), ("empm", "runtime"),
+    ("c34_nothing_passed|default('')", "runtime"), ("emptylist|join", "runtime"),
+    ("emp|default('', true)", "runtime"), ("'' if yes else 'x'", "runtime"),
+    ("emp|trim", "runtime"), ("emptylist|join('-')", "runtime"),
+]
+EMPTY_DATA = {"emp": ["str", ""], "empm": ["markup", ""], "emptylist": ["list", []],
+              "yes": ["bool", True]}
 
 
 STR_VALUES = ["1", "a", "'a'", '"b"', "[1, 2]", "{[1]: 2}", "{{1}}", " 1", "1 ", "", "\n1", "1\n",
@@ -433,6 +509,113 @@ def gen_case(r):
     return {"segs": segs, "data": data}
 
 
+def gen_odd_value(r):
+    """Mostly values whose text does NOT read back as an equal literal (the value itself and
+    the literal-or-text of its string differ), some that do."""
+    k = r.randrange(20)
+    if k <= 2:
+        return ["foo", r.randrange(20)]
+    if k <= 4:
+        return ["strobj", r.choice(["1", "[1]", "x", "'q'", "{[1]: 2}", "", "None"])]
+    if k == 5:
+        return ["decimal", r.choice(["1.50", "2", "NaN"])]
+    if k == 6:
+        return ["date", r.choice([[2024, 1, 31], [1999, 12, 1]])]
+    if k == 7:
+        return ["fset", r.choice([[1], [], [1, 2]])]
+    if k == 8:
+        return [r.choice(["nan", "inf"])]
+    if k == 9:
+        return r.choice([["range", 3], ["func"], ["gen", 2], ["bytes", "ab"]])
+    if k in (10, 11):
+        return ["undef"]
+    if k == 12:
+        return ["markup", r.choice(["1", "<b>", "[1, 2]"])]
+    if k == 13:
+        return ["tuple", [["foo", 1], ["int", 2]]]
+    if k == 14:
+        return ["list", [["decimal", "1.5"]]]
+    if k == 15:
+        return ["str", r.choice(STR_VALUES)]
+    return gen_value(r)
+
+
+def gen_empty_case(r):
+    """ONE value node with output nodes that render as nothing (EMPTY_EXPRS) and / or statements
+    without any output around it, at the top level or inside an if / for / with / block body.
+    -> segment case (as gen_case) + "family": "empty-parts"."""
+    data = dict(EMPTY_DATA)
+    scope = r.choice(["top", "top", "top", "if", "loop", "with", "block", "if-in-loop"])
+    recipe = gen_odd_value(r)
+    if scope in ("loop", "if-in-loop") and recipe[0] in ("undef", "gen"):
+        recipe = ["foo", 3]
+    shape = r.random()
+    nblock = [0]
+
+    def empties(lo, hi):
+        n = r.randint(lo, hi)
+        if shape < 0.15:
+            n = 0                   # control: no empty node at all, only silent statements
+        out = []
+        for _ in range(n):
+            out.append(["empty", r.randrange(len(EMPTY_EXPRS))])
+            if r.random() < 0.25:
+                out.append(silent())
+        return out
+
+    def silent():
+        kind = r.choice(["comment", "set", "emptyif", "emptyfor", "emptywith", "emptyblock",
+                         "include"])
+        if kind == "emptyblock" and scope in ("loop", "if-in-loop"):
+            kind = "emptyif"
+        if kind == "comment":
+            return ["comment"]
+        if kind == "set":
+            return ["set", "yes"]
+        nblock[0] += 1
+        return ["nooutput", kind, "e%d" % nblock[0]]
+
+    where = r.choice(["before", "after", "after", "both"])
+    val = ["item"] if scope in ("loop", "if-in-loop") else ["var", "v1", ""]
+    core = (empties(1, 2) if where in ("before", "both") else []) + [val] + \
+        (empties(1, 2) if where in ("after", "both") else [])
+    if shape < 0.15 or r.random() < 0.2:
+        core.insert(r.randrange(len(core) + 1), silent())
+    if scope in ("loop", "if-in-loop"):
+        data["v1"] = ["list", [recipe]]
+    else:
+        data["v1"] = recipe
+    if scope == "top":
+        segs = core
+    elif scope == "if":
+        segs = [["if", "yes", core]]
+    elif scope == "loop":
+        segs = [["loop", "v1", core]]
+    elif scope == "if-in-loop":
+        segs = [["loop", "v1", [["if", "yes", core]]]]
+    elif scope == "with":
+        segs = [["with", core]]
+    else:
+        segs = [["blockof", "main_b", core]]
+    extra = r.random()
+    if extra < 0.12:
+        # the empty node sits OUTSIDE the body that prints the value
+        segs = segs + [["empty", r.randrange(len(EMPTY_EXPRS))]] if r.random() < 0.5 else \
+            [["empty", r.randrange(len(EMPTY_EXPRS))]] + segs
+    elif extra < 0.22:
+        # text around: the value and the empty node inside a literal's brackets
+        L, R = r.choice([("[", "]"), ("(", ",)"), ("'", "'"), ("x", ""), ("", " ")])
+        segs = [["data", L]] + segs + ([["data", R]] if R else [])
+    return {"family": "empty-parts", "scope": scope, "segs": segs, "data": data}
+
+
+def _walk_segs(segs):
+    for sg in segs:
+        yield sg
+        if sg[0] in ("if", "loop", "with", "blockof"):
+            yield from _walk_segs(sg[-1])
+
+
 def realize(segs, values):
     """One pass over the segment tree -> (template source in default
     delimiters, flat model list of ["data", s] / ["val", v, ws] / ["tag"] in
@@ -441,13 +624,55 @@ def realize(segs, values):
     nothing (documentation of the statements, docs/templates.rst)."""
     out = []
 
-    def emit_src(s, flat, live):
-        out.append(s)
+    mute = [0]
 
-    def walk(sl, flat, live):
+    def emit_src(s, flat, live):
+        if not mute[0]:
+            out.append(s)
+
+    def walk(sl, flat, live, item=None):
         for sg in sl:
             k = sg[0]
-            if k == "data":
+            if k == "empty":
+                # an expression whose value is the empty string: an output node all the same
+                emit_src("{{ " + EMPTY_EXPRS[sg[1]][0] + " }}", flat, live)
+                if live:
+                    flat.append(["val", "", ""])
+            elif k == "item":
+                emit_src("{{ item }}", flat, live)
+                if live:
+                    flat.append(["val", item, ""])
+            elif k == "loop":
+                # {% for item in <list> %} body {% endfor %}; the body may print the item
+                emit_src("{% for item in " + sg[1] + " %}", flat, live)
+                walk(sg[2], [], False)          # the body's source, once
+                if live:
+                    flat.append(["tag"])
+                    mute[0] += 1
+                    for it in values[sg[1]]:    # the body's output, per item
+                        walk(sg[2], flat, True, it)
+                        flat.append(["tag"])
+                    mute[0] -= 1
+                emit_src("{% endfor %}", flat, live)
+            elif k in ("with", "blockof"):
+                # a scope / a block around segments: tags that output nothing themselves
+                emit_src("{% with %}" if k == "with" else "{% block " + sg[1] + " %}", flat, live)
+                if live:
+                    flat.append(["tag"])
+                walk(sg[-1], flat, live, item)
+                emit_src("{% endwith %}" if k == "with" else "{% endblock %}", flat, live)
+                if live:
+                    flat.append(["tag"])
+            elif k == "nooutput":
+                # statements that produce no output at all
+                emit_src({"emptyif": "{% if yes %}{% endif %}",
+                          "emptyfor": "{% for _e in emptylist %}x{% endfor %}",
+                          "emptyblock": "{% block " + str(sg[2]) + " %}{% endblock %}",
+                          "include": "{% include 'c34_empty' %}",
+                          "emptywith": "{% with %}{% endwith %}"}[sg[1]], flat, live)
+                if live:
+                    flat.append(["tag"])
+            elif k == "data":
                 # never let a data '{' meet the '{' / '%' / '#' of what follows
                 d = sg[1] + " " if sg[1].endswith("{") else sg[1]
                 emit_src(d, flat, live)
@@ -473,7 +698,7 @@ def realize(segs, values):
                 emit_src("{% if " + sg[1] + " %}", flat, live)
                 if live:
                     flat.append(["tag"])
-                walk(sg[2], flat, live and bool(values[sg[1]]))
+                walk(sg[2], flat, live and bool(values[sg[1]]), item)
                 emit_src("{% endif %}", flat, live)
                 if live:
                     flat.append(["tag"])
@@ -614,8 +839,13 @@ def check_case(ctx, mode, case):
     if not pieces:
         ctx.count("empty_output_not_checked")
         return
+    fam = case.get("family")
+    templates = None
+    if any(sg[0] == "nooutput" and sg[1] == "include" for sg in _walk_segs(segs)):
+        templates = {"main": src, "c34_empty": ""}
     try:
-        got = do_render(mode, src, values)
+        rvalues = {k: v for k, v in values.items() if v is not UNDEF}
+        got = do_render(mode, "main" if templates else src, rvalues, templates)
     except BaseException as e:  # noqa: BLE001
         lit = "".join(str(p[1]) for p in pieces)
         single = len(pieces) == 1 and pieces[0][0] == "val" and not isinstance(pieces[0][1], str)
@@ -629,6 +859,8 @@ def check_case(ctx, mode, case):
                            f"{str(e)[:200]}", rec)
         return
     nvar = sum(1 for p in pieces if p[0] == "val")
+    if fam == "empty-parts":
+        return check_empty_parts(ctx, mode, case, src, pieces, got, rec)
     if len(pieces) == 1 and pieces[0][0] == "val" and not isinstance(pieces[0][1], str):
         ctx.count("identity_checks")
         exp_kind = "identity"
@@ -640,6 +872,70 @@ def check_case(ctx, mode, case):
         exp_kind = judge_text(ctx, mode, src, "".join(str(p[1]) for p in pieces), got, rec)
     if nvar:
         ctx.dist((mode, [s[0] for s in segs], kinds_of(pieces), exp_kind))
+
+
+def check_empty_parts(ctx, mode, case, src, pieces, got, rec):
+    """docs/nativetypes.rst: 'Rendering a Python object produces that object as long as it is
+    the only node'; NativeTemplate.render: 'If the result is a single node, its value is
+    returned.  Otherwise, the nodes are concatenated as strings' and literal_eval'd / returned as
+    the string.  An output node whose value is the empty string is a node: next to it the value
+    is NOT the only node, the text rule applies.  Statements without output are no nodes."""
+    segs = case["segs"]
+    scope = case["scope"]
+    value = pieces[[i for i, p in enumerate(pieces) if p[0] == "val" and p[1] != "" or
+                    p[1] is UNDEF][0]][1] if any(p[0] == "val" and (p[1] != "" or p[1] is UNDEF)
+                                                 for p in pieces) else ""
+    used = [EMPTY_EXPRS[sg[1]] for sg in _walk_segs(segs) if sg[0] == "empty"]
+    silent = [sg for sg in _walk_segs(segs) if sg[0] in ("nooutput", "comment", "set")]
+    ekinds = sorted({k for _, k in used})
+    ctx.count("empty_part_cases")
+    ctx.count("empty_scope:" + scope)
+    for k in ekinds:
+        ctx.count("empty_part:" + k)
+    has_data = any(p[0] == "data" for p in pieces)
+    single = len(pieces) == 1 and pieces[0][0] == "val" and not isinstance(pieces[0][1], str)
+    text = "".join(str(p[1]) for p in pieces)
+    if single:
+        # only silent statements around the value: it is the only node
+        ctx.count("identity_checks")
+        ctx.count("empty_only_silent_statements_around_single_value")
+        exp_kind = "identity"
+        if value is UNDEF:
+            ctx.count("single_undefined_not_checked")
+        elif got is not value:
+            ctx.violation(f"{mode}:single-node-next-to-silent-statement-not-identity:"
+                          + "+".join(sorted({sg[1] if sg[0] == "nooutput" else sg[0]
+                                             for sg in silent})),
+                          f"{src!r}: the only output node is {value!r} (the other statements "
+                          f"output nothing) but the template returned {type(got).__name__} "
+                          f"{got!r}", rec)
+    else:
+        nonstr = not isinstance(value, str)
+        if nonstr and used and not has_data:
+            ctx.count("empty_next_to_single_nonstring_value")
+            kind, v, alt = literal_or_text(text)
+            if value is UNDEF or not (same(value, v) or (alt is not None and same(value, alt))):
+                # the documented result differs observably from the value itself
+                ctx.count("empty_next_to_value_whose_text_is_not_its_literal")
+            accepted = ((isinstance(got, str) and got == v) or same(got, alt)) \
+                if kind == "either" else same(got, v) if kind == "literal" else \
+                (isinstance(got, str) and got == v)
+            if not accepted and (got is value or (
+                    value is UNDEF and not isinstance(got, str) and
+                    type(got).__name__.endswith("Undefined"))):
+                ctx.violation(
+                    f"{mode}:value-next-to-empty-node:{'+'.join(ekinds)}-empty:{scope}:"
+                    "returned-the-value-itself",
+                    f"{src!r} with {case['data']}: the template has the output nodes "
+                    f"{[p[1] for p in pieces]!r}, not a single node; documented result: the "
+                    f"concatenated text {text!r} as a literal if it is one, else the text; got "
+                    f"the object {got!r} itself", rec)
+                ctx.dist((mode, "empty", scope, ekinds, type(value).__name__, "violated"))
+                return
+        exp_kind = judge_text(ctx, mode, src, text, got, rec,
+                              keypfx=f"{mode}:empty-parts")
+    ctx.dist((mode, "empty", scope, [e for e, _ in used][:3], len(silent) > 0,
+              type(value).__name__, has_data, exp_kind))
 
 
 def judge_text(ctx, mode, src, text, got, rec, keypfx=None):
@@ -1428,6 +1724,18 @@ def run(ctx):
                         "data": case["data"]})
         if not quick and ctx.elapsed() > ctx.budget_s * 0.4:
             ctx.count("blocks_timeboxed")
+            break
+    rng = ctx.rng("empties")
+    for i in range(100 if quick else 5000):
+        case = gen_empty_case(rng)
+        for mode in MODES:
+            check_case(ctx, mode, case)
+        if i < 2:
+            ctx.sample({"src": realize(case["segs"], {k: make_value(v) for k, v in
+                                                      case["data"].items()})[0],
+                        "data": case["data"]})
+        if not quick and ctx.elapsed() > ctx.budget_s * 0.5:
+            ctx.count("empties_timeboxed")
             break
     rng = ctx.rng("cases")
     n_max = 700 if quick else 30000
